@@ -649,6 +649,28 @@ def dof_groups(ctx, obs, q, rule='DOF'):
                       f'dof = `{norm(b["dof"][0])}` (inlined: {ast.unparse(alts[0])[:80]}) never reads the descriptor named by '
                       f'`{p}`: with grouped RDMs/conditions (e.g. 3 groups of 2) it counts items, not resampled groups',
                       '', where(prog, f, c.node))
+        # per arm of a boot_type chain: the arm that resamples a factor takes its dof from THAT factor's groups
+        dv = b['dof'][0]
+        if isinstance(dv, ast.Name):
+            for i in r.load_defs.get(id(dv), ()):
+                d = r.defs[i]
+                if d.kind != 'assign' or d.rhs is None or not isinstance(d.node, ast.Assign):
+                    continue
+                arm = None
+                for g in ast.walk(f.node):
+                    if isinstance(g, ast.If) and isinstance(g.test, ast.Compare) and isinstance(g.test.left, ast.Name) and g.test.left.id == 'boot_type' \
+                            and isinstance(g.test.comparators[0], ast.Constant) and any(d.node is y for y in g.body):
+                        arm = g.test.comparators[0].value
+                if arm not in ('both', 'pattern', 'rdm'):
+                    continue
+                e = inl.inline(d.rhs)
+                for fac, pname in (('rdm', 'rdm_descriptor'), ('pattern', 'pattern_descriptor')):
+                    if arm not in (fac, 'both') or pname not in f.params:
+                        continue
+                    reads_p = any(isinstance(n, ast.Name) and n.id == 'PARAM_' + pname for n in ast.walk(e))
+                    obs.check(reads_p, rule, q, f'boot_type {arm!r}: dof derives from the groups defined by {pname}',
+                              f'`{norm(d.node)[:70]}` (inlined: {ast.unparse(e)[:70]}) never reads the descriptor named by `{pname}`: with grouped '
+                              f'{"RDMs" if fac == "rdm" else "conditions"} it counts items, not the resampled groups', '', where(prog, f, d.node))
         for a in alts:
             obs.check(_minus_one(a), rule, q, 'dof is a group count minus one',
                       f'dof alternative `{ast.unparse(a)[:80]}` is not of the form <count> - 1', '', where(prog, f, c.node))
